@@ -39,6 +39,7 @@ def cases(tier, seed):
     for scheme in ("L/Y/YX", "LXY"):
         for fmt in (EXTS if tier == "thorough" else ("png", "fits")):
             out.append(dict(t="template", scheme=scheme, fmt=fmt, seed=R.randrange(1 << 30), nrand=2000 if tier == "quick" else 20000))
+        out.append(dict(t="template", scheme=scheme, fmt="ADVERTISED", seed=R.randrange(1 << 30), nrand=500))
     wf = ["study_png", "study_jpg", "study_fits", "study_fitswcs", "allsky", "multi_tan", "wwtl", "tile_fits_tan", "tile_fits_wcs", "tile_fits_toast", "pipeline", "api_study"]
     reps = 2 if tier == "quick" else 50
     for w in wf:
@@ -52,8 +53,9 @@ def cases(tier, seed):
     seqs = [["fresh", "repeat"], ["fresh", "override", "repeat"], ["fresh", "repeat", "repeat"], ["fresh", "repeat", "override"],
             ["interrupted", "override_smaller", "repeat"], ["interrupted", "override_smaller"],
             ["fresh", "repeat", "override_other", "repeat"], ["fresh", "absolutize", "repeat"], ["fresh", "repeat", "absolutize", "repeat", "override", "repeat"],
-            ["fresh", "override_other", "repeat", "override_other", "repeat"]]
-    for i in range(10 if tier == "quick" else 200):
+            ["fresh", "override_other", "repeat", "override_other", "repeat"],
+            ["failed_early", "repeat", "repeat"], ["fresh", "failed_override", "repeat"], ["failed_early", "repeat", "failed_override", "repeat", "repeat"]]
+    for i in range(26 if tier == "quick" else 260):
         out.append(dict(t="history", seq=seqs[i % len(seqs)], mode=["tan", "tan", "toast"][i % 3], seed=R.randrange(1 << 30), par=R.choice([1, 2])))
     # a TOAST pyramid more than nine levels deep (arc-second pixels), fresh and reused: level numbers have two digits
     for i in range(2 if tier == "quick" else 12):
@@ -66,6 +68,28 @@ def expand(url, n, x, y):
 
 
 def case_template(spec, workdir):
+    if spec["fmt"] == "ADVERTISED":
+        # every format the library itself advertises (toasty.image.SUPPORTED_FORMATS) beyond the four this check names: the
+        # template and the paths must agree for those too, and a tile written in that format must land on the templated path
+        from toasty.image import SUPPORTED_FORMATS, Image
+        from toasty.pyramid import Pos, PyramidIO
+
+        agg = dict(counters=dict(advertised_formats=len(SUPPORTED_FORMATS), template_positions=0), nontrivial=True, sample=dict(spec=spec, formats=list(SUPPORTED_FORMATS)))
+        for f in SUPPORTED_FORMATS:
+            if f in EXTS:
+                continue
+            r = case_template(dict(spec, fmt=f), os.path.join(workdir, f))
+            agg["counters"]["template_positions"] += r["counters"]["template_positions"]
+            if r.get("status") == "violation":
+                return r
+            pio = PyramidIO(os.path.join(workdir, f, "w"), scheme=spec["scheme"], default_format=f)
+            from toasty.builder import Builder
+
+            url = Builder(pio).imgset.url
+            pio.write_image(Pos(1, 1, 0), Image.from_array(np.full((256, 256, 3), 7, np.uint8)))
+            if not os.path.exists(os.path.join(workdir, f, "w", expand(url, 1, 1, 0))):
+                return dict(agg, status="violation", key="template-vs-file:advertised-format", detail="format %r: a tile written at (1,1,0) is not at the templated path %r" % (f, expand(url, 1, 1, 0)))
+        return agg
     from toasty.builder import Builder
     from toasty.pyramid import Pos, PyramidIO
 
@@ -420,7 +444,7 @@ def case_history(spec, workdir):
         sc = 0.5 if spec["mode"] == "toast" else R.choice([1.3e-3, 6e-4])
         paths = [fitsgen.write_piece(os.path.join(ind, "t.fits"), m, (0, 0, 80, 60), (40, 30), scale=sc, crval=(R.uniform(0, 360), R.uniform(-60, 60)), bottoms_up=True)]
         kw = dict(tiling_method=TilingMethod.TOAST)
-    out = os.path.join(workdir, "out") if (R.random() < 0.7 or "override_other" in spec["seq"]) else None
+    out = os.path.join(workdir, "out") if (R.random() < 0.7 or "override_other" in spec["seq"] or spec["seq"][0] == "failed_early") else None
     probs = []
     instr_mp.install("natural", spec["seed"])
     calls = 0
@@ -456,6 +480,20 @@ def case_history(spec, workdir):
                 sc = R.choice([2.0, 0.1])
                 fitsgen.write_piece(other, rng.normal(size=(40, 50)).astype(np.float32), (0, 0, 50, 40), (25, 20), scale=sc, crval=(R.uniform(0, 360), R.uniform(-60, 60)), bottoms_up=True)
             use = current = [other]
+        if step in ("failed_early", "failed_override"):
+            # a call that fails before a single tile is written (one of the input files does not exist): it leaves no pyramid behind - what the
+            # NEXT call returns and records is judged
+            ls = lambda: sorted(os.path.join(_r, f) for _r, _d, fs in os.walk(out) for f in fs if f.endswith(".fits")) if os.path.isdir(out) else []
+            before = ls()
+            try:
+                toasty.tile_fits([os.path.join(ind, "does-not-exist.fits")] + list(use), out_dir=out, parallel=spec["par"], override=(step == "failed_override"), **kw2)
+                probs.append(("missing-input-accepted", "tile_fits returned normally although one input file does not exist"))
+            except Exception:
+                pass
+            calls += 1
+            if ls() and ls() != before:
+                return dict(status="inconclusive", detail="the failing call wrote tiles before it failed: the history is not the one intended")
+            continue
         if step == "interrupted":
             # the first run dies between the base layer and the end of the cascade (before index_rel.wtml is written)
             from toasty import builder as _b
